@@ -315,6 +315,68 @@ RULE = (
     " Arguments are also handed over as nested lists and (when whole numbers) as int64 arrays; steps may be Python ints; domain units span 1e-9..1e3."
 )
 
+# ------------------------------------------------------------------------------------------------
+# large calls: many signals x filters x domain points (size-dependent code paths); data from a drawn numpy seed
+
+
+@st.composite
+def large_case(draw):
+    nd = draw(st.sampled_from([31, 101, 401, 1201]))
+    nf = draw(st.integers(2, 5))
+    total = draw(st.sampled_from([2 ** 20, 2 ** 22, 2 ** 24, 2 ** 25]))          # elements of the broadcast product
+    ns = total // (nf * nd) + draw(st.integers(1, 9))
+    return dict(nd=nd, nf=nf, ns=int(ns), data_seed=draw(st.integers(0, 2 ** 31 - 1)),
+                domain=draw(st.sampled_from(["step", "uniform", "nonuniform"])), step=draw(st.sampled_from([1, 0.5, 2.0])),
+                trapz=draw(st.sampled_from([True, True, False])))
+
+
+def body_large(case):
+    """The arrays are too large to be drawn element by element: they come from numpy's generator seeded with a drawn value (the
+    case is still a pure function of its JSON).  Oracle: own trapezoid weights (half weights at both ends) as a matrix product
+    for EVERY row, the fsum trapezoid for a handful of rows, and the same rows evaluated in a small call."""
+    dreye = _dreye()
+    rng = np.random.default_rng(case["data_seed"])
+    nd, nf, ns = case["nd"], case["nf"], case["ns"]
+    F = rng.uniform(0.1, 1.0, (nf, nd))
+    S = rng.uniform(0.1, 1.0, (ns, nd))               # non-zero at both ends of the domain
+    if case["domain"] == "step":
+        dom_arg = case["step"]
+        x = np.arange(nd) * float(case["step"])
+    elif case["domain"] == "uniform":
+        x = 300.0 + np.arange(nd) * float(case["step"])
+        dom_arg = x
+    else:
+        x = np.cumsum(rng.uniform(0.2, 2.0, nd))
+        dom_arg = x
+    trapz = case["trapz"] if case["domain"] == "step" else True      # (trapz=False is defined for a scalar step)
+    with calling(f"calculate_capture ({ns} signals x {nf} filters x {nd} points)"):
+        got = np.asarray(dreye.calculate_capture(F, S, domain=dom_arg, trapz=trapz), dtype=float)
+    check(got.shape == (ns, nf), "large:shape", f"{got.shape} != {(ns, nf)}")
+    dx = np.diff(x)
+    if trapz:
+        w = np.zeros(nd)
+        w[:-1] += dx / 2
+        w[1:] += dx / 2
+    else:
+        w = np.full(nd, float(case["step"]))
+    exp = (S * w) @ F.T
+    scale = (np.abs(S) * np.abs(w)) @ np.abs(F).T
+    bad = np.abs(got - exp) > 1e-10 * scale
+    if np.any(bad):
+        i, j = np.argwhere(bad)[0]
+        raise Violation("large:value", f"capture[{i}, {j}] of a call with {ns} signals = {got[i, j]!r}, trapezoid integral = {exp[i, j]!r} "
+                                       f"({int(bad.any(axis=1).sum())} rows differ, first {int(np.argmax(bad.any(axis=1)))}, last {int(ns - 1 - np.argmax(bad.any(axis=1)[::-1]))})")
+    rows = sorted({0, 1, ns // 2, ns - 2, ns - 1, int(rng.integers(0, ns)), int(rng.integers(0, ns))})
+    with calling("calculate_capture (the same rows in a small call)"):
+        small = np.asarray(dreye.calculate_capture(F, S[rows], domain=dom_arg, trapz=trapz), dtype=float)
+    check(np.all(np.abs(small - got[rows]) <= 1e-12 * scale[rows]), "large:depends-on-call-size", "rows of a large call differ from the same rows evaluated in a small call")
+    for i in rows[:3]:
+        for j in range(nf):
+            v, a = (trapz_fsum if trapz else rect_fsum)([float(p * q) for p, q in zip(S[i], F[j])], **(dict(x=x.tolist()) if trapz else dict(dx=float(case["step"]))))
+            check(abs(got[i, j] - v) <= REL * a, "large:value-fsum", f"capture[{i}, {j}] = {got[i, j]!r}, fsum trapezoid = {v!r}")
+    return [f"elements>=2^{int(np.log2(ns * nf * nd))}", case["domain"], "trapz" if trapz else "rect", "nt:large-call"]
+
+
 PROP = Prop(
     pid="C01",
     title="Capture is the trapezoid integral of filter x signal, pairwise and linear",
@@ -330,5 +392,6 @@ PROP = Prop(
         Sub("scalar_step", step_case(), body_step, quick=600, thorough=40000, min_nt_share=0.2),
         Sub("integral_helper", integral_case(), body_integral, quick=1000, thorough=80000, min_nt_share=0.2),
         Sub("estimator_capture", estimator_case(), body_estimator, quick=600, thorough=40000, min_nt_share=0.2),
+        Sub("large_call", large_case(), body_large, quick=24, thorough=320, quick_shards=4, thorough_shards=16, min_nt_share=0.0),
     ],
 )
